@@ -469,6 +469,31 @@ func MapLife(r *prng.R) (string, []core.Event) {
 	delKey := keys[r.Intn(3)]
 	newKey := []string{"z", "k", "a", "d"}[r.Intn(4)]
 	var b strings.Builder
+	if r.Chance(0.3) {
+		// the array of a variadic parameter outlives its call (returned, kept in a global, a map, an
+		// any); later calls with other argument types, other depths and built-ins in between must not
+		// show through it
+		t1 := []string{"num", "string", "any", "bool"}[r.Intn(4)]
+		lit := map[string][]string{"num": {"1", "2", "3"}, "string": {"\"a\"", "\"b\"", "\"c\""}, "any": {"1", "\"s\"", "true"}, "bool": {"true", "false", "true"}}
+		other := map[string]string{"num": "\"x\" \"y\" \"z\" \"w\"", "string": "7 8 9 10", "any": "[1] {a:2} 3 4", "bool": "1 \"two\" 3 4"}
+		fmt.Fprintf(&b, "held:[]%s\nbox := {k:0}\nwrapped:any\nfunc keep:[]%s v:%s...\n    return v\nend\nfunc stash v:%s...\n    held = v\n    wrapped = v\n    box.k = (len v)\nend\nfunc noise v:any...\n    print (len v)\nend\n", t1, t1, t1, t1)
+		a := lit[t1]
+		fmt.Fprintf(&b, "r1 := keep %s %s %s\nr2 := keep %s\nstash %s %s\n", a[0], a[1], a[2], a[1], a[2], a[0])
+		fmt.Fprintf(&b, "noise %s\nprint (sprint %s) (sprintf \"%%v %%v\" %s)\nr3 := keep\nnoise (keep %s) %s\n", other[t1], other[t1], strings.Join(strings.Fields(other[t1])[:2], " "), a[0], other[t1])
+		b.WriteString("print r1 r2 r3 held wrapped box (typeof r1) (typeof held) (typeof wrapped)\nfor e := range r1\n    w:any\n    w = e\n    print e (e == e) (typeof w)\nend\nfor e := range held\n    w:any\n    w = e\n    print e (typeof w)\nend\n")
+		switch t1 {
+		case "num":
+			b.WriteString("print 1+r1[0] r1[1]+1 (held[0] * 2)\n")
+		case "string":
+			b.WriteString("print \"<\"+r1[0] r1[1]+\">\" (upper held[0])\n")
+		case "bool":
+			b.WriteString("print !r1[0] (r1[1] and held[0])\n")
+		default:
+			b.WriteString("print (typeof r1[0]) (typeof held[1]) (r1[0] == r1[0])\n")
+		}
+		b.WriteString("r1 = r1 + r2\nprint r1 (len r1)\nnoise r1 held\nprint r1 held\n")
+		return b.String(), nil
+	}
 	switch r.Intn(4) {
 	case 0: // procedure
 		fmt.Fprintf(&b, "func mk:{}any\n    return %s\nend\nm1 := mk\nm2 := mk\ndel m1 %q\nm1.%s = 7\nm3 := mk\nprint m1 m2 m3 (mk)\ndel m3 %q\nm3[%q] = 1\nprint m1 m2 m3 (len m1) (has m2 %q)\nfor k := range m2\n    print k m2[k]\nend\n", lit, delKey, newKey, keys[r.Intn(3)], newKey, delKey)
